@@ -616,6 +616,10 @@ func (r VerifReplica) Applied() uint64 { return r.n.sm.GetLastApplied() }
 // Membership returns the applied membership.
 func (r VerifReplica) Membership() pb.Membership { return r.n.sm.GetMembership() }
 
+// MembershipNoLock returns the applied membership without taking the state
+// machine's lock (the caller knows that no task is running).
+func (r VerifReplica) MembershipNoLock() pb.Membership { return r.n.sm.VerifMembership() }
+
 // Hashes returns the user state, session and membership hashes.
 func (r VerifReplica) Hashes() (uint64, uint64, uint64, error) {
 	s, err := r.n.sm.GetHash()
